@@ -327,3 +327,36 @@ func (p *Program) pos(pos token.Pos) string {
 	}
 	return fmt.Sprintf("%s:%d", f, ps.Line)
 }
+
+// reaches: g is reachable from f through one or more static calls.
+func (p *Program) reaches(f, g *ssa.Function) bool {
+	seen := map[*ssa.Function]bool{}
+	var walk func(h *ssa.Function) bool
+	walk = func(h *ssa.Function) bool {
+		for _, c := range p.staticCallees(h) {
+			if c == g {
+				return true
+			}
+			if !seen[c] {
+				seen[c] = true
+				if walk(c) {
+					return true
+				}
+			}
+		}
+		return false
+	}
+	return walk(f)
+}
+
+// sameSCC: a call from f to g may lead back to f (both lie on one cycle of the static call graph; inlined functions are
+// nodes of that graph, so a cycle through an inlined callee is seen).
+func (p *Program) sameSCC(f, g *ssa.Function) bool {
+	if f == nil || g == nil {
+		return false
+	}
+	if f == g {
+		return true
+	}
+	return p.reaches(g, f)
+}
